@@ -5,8 +5,8 @@ package main
 import (
 	"fmt"
 	"os"
-	"time"
 	"strings"
+	"time"
 
 	"verifharness/hx"
 )
